@@ -8,6 +8,8 @@ import (
 	"verif/mc/core"
 	"verif/mc/env"
 	"verif/mc/explore"
+	"verif/mc/gen"
+	"verif/mc/spec"
 )
 
 // C08 — a stream that ends or fails inside a packet is reported.
@@ -101,6 +103,8 @@ func runC08(x *core.Ctx) {
 	for _, v := range validCorpus() {
 		frames = append(frames, CFrame{Name: "V:" + v.Name, B: v.B, Valid: true, Type: v.B[0] >> 4})
 	}
+	big := &spec.Packet{Type: 3, Flags: 2, PacketID: 3, Topic: []byte("big"), Payload: gen.Content('L', 5000)}
+	frames = append(frames, CFrame{Name: "publish.5000B", B: mustEncode(big, spec.Form{}), Valid: true, Type: 3})
 	for fi, f := range frames {
 		f := f
 		bound := bound
